@@ -211,3 +211,44 @@ vproof! {12, fn c19_geo_value_any_3() { value_any::<3>(); }}
 vproof! {14, fn c19_geo_value_any_10() { value_any::<10>(); }}
 vproof! {8, fn c19_layer_any_3() { layer_any::<3>(); }}
 vproof! {10, fn c19_layer_any_5() { layer_any::<5>(); }}
+
+// ---------------------------------------------------------------------------------- C10: add_from_layer
+// Two equally named layers, each written by the independent encoder from its own ground truth (own key/value
+// tables, possibly the same entries in a different order). After a.add_from_layer(b): features of a then b, ids and
+// geometry unchanged, every tag still denotes its ground-truth key and value (through a's tables).
+fn check_feature_in<const NK: usize, const NV: usize>(layer: &VectorTileLayer, idx: usize, t: &Truth<NK, NV>) {
+	let f = &layer.features[idx];
+	assert!(f.id == Some(t.id as u64), "feature id changed by the merge");
+	assert!(f.geom_type.as_u64() == t.geom_type as u64, "geometry type changed by the merge");
+	assert!(f.geom_data.as_slice().len() == 1 && f.geom_data.as_slice()[0] == t.geom, "geometry bytes changed by the merge");
+	assert!(f.tag_ids.len() == 2, "number of tags changed by the merge");
+	let k = layer.property_manager.key.list.get(f.tag_ids[0] as usize);
+	assert!(k.is_some(), "merged tag key index points past the key table");
+	assert!(k.unwrap().as_bytes().len() == 1 && k.unwrap().as_bytes()[0] == t.keys[t.tag.0 as usize], "merged feature has the wrong property key");
+	let v = layer.property_manager.val.list.get(f.tag_ids[1] as usize);
+	assert!(v.is_some(), "merged tag value index points past the value table");
+	assert!(*v.unwrap() == GeoValue::UInt(t.vals[t.tag.1 as usize] as u64), "merged feature has the wrong property value");
+}
+
+fn layer_merge<const NK: usize, const NV: usize>() {
+	let ta = any_truth::<NK, NV>();
+	let tb = any_truth::<NK, NV>();
+	let ba = encode_layer(&ta);
+	let bb = encode_layer(&tb);
+	crate::verif_kani::stubs::set_alloc_limit(ba.len());
+	let mut ra = ValueReaderSlice::new_le(&ba);
+	let mut rb = ValueReaderSlice::new_le(&bb);
+	let mut a = ok(VectorTileLayer::read(&mut ra)).unwrap();
+	let b = ok(VectorTileLayer::read(&mut rb)).unwrap();
+	let r = ok(a.add_from_layer(b));
+	assert!(r.is_some(), "merging two valid layers failed");
+	assert!(a.features.len() == 2, "merged layer does not hold the features of both");
+	check_feature_in(&a, 0, &ta);
+	check_feature_in(&a, 1, &tb);
+	kani::cover!(NK < 2 || (ta.keys[0] == tb.keys[1] && ta.keys[1] == tb.keys[0] && ta.keys[0] != ta.keys[1]), "same keys in a different table order");
+	kani::cover!(ta.vals[0] != tb.vals[0]);
+	std::mem::forget(a);
+}
+
+vproof! {8, fn c10_layer_merge_1_1() { layer_merge::<1, 1>(); }}
+vproof! {8, fn c10_layer_merge_2_2() { layer_merge::<2, 2>(); }}
